@@ -78,6 +78,19 @@ Definition reviewed_touch : list changed_site := [].
 Definition unreviewed_touch (l : list changed_site) : list changed_site :=
   filter (fun s => negb (existsb (changed_eqb s) reviewed_touch)) l.
 
+(** A numeric option compared (== / !=) with its own documented default (inventory in Gen/Flags.v
+    [default_sentinel_sites]): the default used as a sentinel.  When the help text documents the sentinel
+    ("-1 = no filter", "-1 = nano seconds since ...") the behaviour still depends on the VALUE only, so
+    giving the default explicitly equals omitting the option; an undocumented one ("height == 200 means
+    not set, then scale with the tree") makes the documented default not the value actually used.
+    Reviewed at the pinned commit: the five "-1" sentinels below, all documented in their help texts. *)
+Definition reviewed_sentinels : list changed_site :=
+  [("randbrlen.go", "var randbrlenCmd", "setlengthMinLen == -1"); ("randbrlen.go", "var randbrlenCmd", "setlengthMaxLen == -1");
+   ("roccurve.go", "var roccurveCmd", "roccurveMinBrLen == -1"); ("roccurve.go", "var roccurveCmd", "roccurveMaxBrLen == -1");
+   ("root.go", "var RootCmd", "seed == -1")].
+Definition unreviewed_sentinels (l : list changed_site) : list changed_site :=
+  filter (fun s => negb (existsb (changed_eqb s) reviewed_sentinels)) l.
+
 (** pflag: the value an option takes when it is given WITHOUT a value ("--name" alone).  Registration
     sets it to "true" for Bool options and leaves it empty for every other kind, and an option with
     an empty NoOptDefVal consumes the next word as its value. *)
